@@ -15,6 +15,8 @@ import (
 	"strconv"
 	"strings"
 	"time"
+
+	"golang.org/x/tools/go/ssa"
 )
 
 // verifRoot is the directory the check was started in (the ./check script changes
@@ -178,6 +180,8 @@ type runResult struct {
 	spec   RunSpec
 	params map[string]int64
 	rep    *HarnessReport
+	eng    *Engine
+	h      *ssa.Function
 }
 
 type replayFile struct {
@@ -333,7 +337,7 @@ func cmdCheck(args []string) int {
 				return 2
 			}
 			rep := eng.Explore(h, seed, nValidate)
-			results = append(results, runResult{spec: r, params: params, rep: rep})
+			results = append(results, runResult{spec: r, params: params, rep: rep, eng: eng, h: h})
 			for k, v := range rep.Funcs {
 				funcs[k] = v
 			}
@@ -381,6 +385,9 @@ func cmdCheck(args []string) int {
 		for _, vm := range rep.ValidationModels {
 			inputs, _ := vm["inputs"].(map[string]uint64)
 			obs, _ := vm["observed"].([]string)
+			if usesInjection(inputs) {
+				continue // the native process cannot be made to fail a syscall or die on cue
+			}
 			validations = append(validations, cand{run: rr, v: Violation{Inputs: inputs, Observed: obs, Kind: "validate"}})
 		}
 	}
@@ -452,6 +459,36 @@ func cmdCheck(args []string) int {
 	confirmed := []cand{}
 	validated := 0
 	nativeErr := ""
+	// Counterexamples that depend on an injected file-system fault or a kill point are
+	// confirmed by concrete re-execution of the real SSA in the engine (every input
+	// fixed to the model's value): a native process cannot be made to fail a system
+	// call or to die at a chosen instant without ptrace.
+	var nativeCands []cand
+	for _, c := range cands {
+		if !usesInjection(c.v.Inputs) {
+			nativeCands = append(nativeCands, c)
+			continue
+		}
+		pr, err := c.run.eng.ReplayConcrete(c.run.h, c.v.Inputs)
+		ok := false
+		if err == nil {
+			if c.v.Kind == "panic" {
+				ok = pr.Panicked != ""
+			}
+			for _, v := range pr.Violations {
+				if v.Label == c.v.Label {
+					ok = true
+				}
+			}
+		}
+		if ok {
+			c.v.Detail = strings.TrimSpace(c.v.Detail + " [confirmed by concrete re-execution of the real SSA with the model's inputs; depends on an injected fault or kill point]")
+			confirmed = append(confirmed, c)
+		} else {
+			mismatches = append(mismatches, fmt.Sprintf("%s label=%s: solver model does not reproduce in concrete re-execution", c.run.spec.Func, c.v.Label))
+		}
+	}
+	cands = nativeCands
 	groupsUsed := map[string]bool{}
 	for _, c := range cands {
 		groupsUsed[c.run.spec.Group] = true
@@ -587,6 +624,16 @@ func cmdCheck(args []string) int {
 			ev["coverage"].(map[string]any)["states"], ev["coverage"].(map[string]any)["obligations"], validated, time.Since(t0).Seconds())
 	}
 	return exit
+}
+
+// usesInjection reports whether a model switches on a file-system fault or a kill point.
+func usesInjection(inputs map[string]uint64) bool {
+	for k, v := range inputs {
+		if v != 0 && (strings.HasPrefix(k, "fsfault:") || strings.HasPrefix(k, "crash#") || strings.HasPrefix(k, "sqlfault:")) {
+			return true
+		}
+	}
+	return false
 }
 
 func firstLine(s string) string {
